@@ -62,7 +62,9 @@ func RunResetDef(p *Prog, r *Report) {
 		if !hasSolve {
 			continue
 		}
-		fieldStores := func(fn *ssa.Function) map[string][]*ssa.BasicBlock {
+		var fieldStoresD func(fn *ssa.Function, depth int) map[string][]*ssa.BasicBlock
+		fieldStores := func(fn *ssa.Function) map[string][]*ssa.BasicBlock { return fieldStoresD(fn, 0) }
+		fieldStoresD = func(fn *ssa.Function, depth int) map[string][]*ssa.BasicBlock {
 			out := map[string][]*ssa.BasicBlock{}
 			if len(fn.Params) == 0 {
 				return out
@@ -72,6 +74,24 @@ func RunResetDef(p *Prog, r *Report) {
 			fns = append(fns, fn)
 			for _, b := range fn.Blocks {
 				for _, ins := range b.Instrs {
+					// a helper method of the same object that assigns a field on all its paths (`b.clear()`)
+					if c, ok := ins.(*ssa.Call); ok && depth < 2 {
+						cal := c.Call.StaticCallee()
+						if cal != nil && cal.Origin() != nil && cal.Origin() != cal {
+							cal = cal.Origin() // a call inside a generic body names an instantiation (wrapper): analyse the origin
+						}
+						if cal != nil && len(c.Call.Args) > 0 && c.Call.Args[0] == recv && len(cal.Blocks) > 0 && cal != fn {
+							for name, blocks := range fieldStoresD(cal, depth+1) {
+								w := map[*ssa.BasicBlock]bool{}
+								for _, bb := range blocks {
+									w[bb] = true
+								}
+								if !exitAvoiding(cal, w) {
+									out[name] = append(out[name], b)
+								}
+							}
+						}
+					}
 					st, ok := ins.(*ssa.Store)
 					if !ok {
 						continue
